@@ -32,8 +32,8 @@ from typing import (AbstractSet, Any, ClassVar, DefaultDict, Deque, Dict, Final,
 from uuid import UUID
 from zoneinfo import ZoneInfo
 
-from typing_extensions import (Annotated, NotRequired, Required, Self, TypedDict,
-                               Unpack)
+from typing_extensions import (Annotated, LiteralString, NotRequired, Required, Self,
+                               TypedDict, Unpack)
 
 from vf import hlib
 
